@@ -4,6 +4,7 @@
 #![allow(dead_code)]
 mod c01;
 mod c02;
+mod c03;
 mod c09;
 mod c10;
 mod c11;
@@ -67,6 +68,7 @@ fn main() {
     match args[1].to_ascii_lowercase().as_str() {
         "c01" => c01::run(&ctx),
         "c02" => c02::run(&ctx),
+        "c03" => c03::run(&ctx),
         "c09" => c09::run(&ctx),
         "c10" => c10::run(&ctx),
         "c11" => c11::run(&ctx),
